@@ -55,6 +55,11 @@ func setupPrefix(args ...string) (handler.Handler6, error) {
 		return nil, fmt.Errorf("Invalid pool subnet: %v", err)
 	}
 
+	if prefix.IP.To4() != nil {
+		// The allocator does 128-bit arithmetic on the pool and on the clients' hints
+		return nil, fmt.Errorf("Invalid pool subnet: %s is not an IPv6 prefix", args[0])
+	}
+
 	allocSize, err := strconv.Atoi(args[1])
 	if err != nil || allocSize > 128 || allocSize < 0 {
 		return nil, fmt.Errorf("Invalid prefix length: %v", err)
